@@ -703,19 +703,92 @@ func c03RunBindAfterBind(fa, na, fb, nb int) explore.Result {
 	return res
 }
 
+// ---- inside COPY-in --------------------------------------------------------------------------------
+
+// c03RunOversizedInCopy: an oversized message arrives while a statement is copying in; it is consumed in exactly its
+// declared length — everything the client sent behind it is interpreted normally.
+func c03RunOversizedInCopy(t byte, over int, binary bool) explore.Result {
+	var res explore.Result
+	res.Outcome = "inside-copy"
+	res.Key = fmt.Sprint("oversized-in-copy", t, over, binary)
+	marker := "select $1 marker"
+	q := "copyt"
+	if binary {
+		q = "copyb"
+	}
+	stream := pgproto.Cat(pgproto.Startup("user", "u"), pgproto.Query(q), pgproto.Msg(t, bytes.Repeat([]byte{'o'}, c03Limit+over)),
+		pgproto.CopyDone(), pgproto.Sync(), pgproto.Query(marker), pgproto.Query(progRows))
+	o := c04RunLimit(false, c04Feed{Stream: stream}, false, c03Limit)
+	if o.engine != "" {
+		res.Engine = o.engine
+		return res
+	}
+	what := fmt.Sprintf("%s, then a %q message %d bytes over the limit, CopyDone, Sync and two queries", q, t, over)
+	n := 0
+	for _, e := range o.events {
+		if strings.Contains(e, "parse") && strings.Contains(e, marker) {
+			n++
+		}
+	}
+	if n != 1 {
+		res.Fail("consumed-beyond-declared-length", fmt.Sprintf("%s: the query behind the oversized message reached the parser %d times (callbacks %v): the oversized message was not consumed in exactly its declared length", what, n, o.events))
+	}
+	if k := harness.Kinds(o.out); !strings.HasSuffix(k, "TDCZ") {
+		res.Fail("consumed-beyond-declared-length", fmt.Sprintf("%s: the session was answered %q (the last query must be answered normally)", what, k))
+	}
+	res.Trans = []string{"copying|oversized|session"}
+	return res
+}
+
+// c03RunBodyInCopy: Sync / Flush messages are invisible to a copy; that holds for their (surplus) bodies too.
+func c03RunBodyInCopy(t byte, sur sletter, binary bool, between bool) explore.Result {
+	var res explore.Result
+	res.Outcome = "inside-copy"
+	res.Key = fmt.Sprint("body-in-copy", t, sur.Name, binary, between)
+	mk := func(body []byte) []byte {
+		var data [][]byte
+		q := "copyt"
+		if binary {
+			q = "copyb"
+			bs := c04BinaryStream()
+			data = [][]byte{pgproto.CopyData(bs[:25]), pgproto.CopyData(bs[25:])}
+		} else {
+			data = [][]byte{pgproto.CopyData([]byte("1\tone\n")), pgproto.CopyData([]byte("2\ttwo\n"))}
+		}
+		m := pgproto.Msg(t, body)
+		seq := [][]byte{pgproto.Startup("user", "u"), pgproto.Query(q), m, data[0]}
+		if between {
+			seq = append(seq, m)
+		}
+		seq = append(seq, data[1], m, pgproto.CopyDone(), pgproto.Sync(), pgproto.Query(progRows))
+		return bytes.Join(seq, nil)
+	}
+	plain := c04Run(false, c04Feed{Stream: mk(nil)}, false)
+	plus := c04Run(false, c04Feed{Stream: mk(sur.Bytes)}, false)
+	if plain.engine != "" || plus.engine != "" {
+		res.Engine = plain.engine + plus.engine
+		return res
+	}
+	if !isSubsequence(plus.events, plain.events) {
+		res.Fail("surplus-leaked", fmt.Sprintf("%q messages carrying %s (% x) inside COPY-in (binary: %v): callbacks\n  %v\nwith empty bodies:\n  %v", t, sur.Name, sur.Bytes, binary, plus.events, plain.events))
+	}
+	res.Trans = []string{"copying|sync/flush with a body|copying"}
+	return res
+}
+
 func init() {
 	explore.Register(&explore.Check{
 		ID:          "C03",
 		Level:       "model_checking",
 		Technique:   "exhaustive enumeration of cut positions (deviation = one cut) over a corpus of client byte streams on a real server (differential against the un-cut delivery), of surplus-carrying messages followed by a probe, and explicit-state enumeration of message bodies x accessor sequences on buffer.Reader against an independent cursor model",
-		Rule:        "segmentation: streams = startup + every history of <= 3 letters over 12 letters (incl. surplus-carrying, oversized, COPY, truncated); read sizes 1/2/3, every single cut, every double cut (all pairs for streams <= 64 bytes, else within +-6 bytes of a message boundary), thorough: triple cuts inside every header; isolation: 16 surplus variants x prefixes of <= 1 letter; declared length: 6 positions (first, after a query, in a batch, in text / binary COPY, awaiting the password) x 15 message types x 15 declared lengths (limit+5 ... 2^31-1, 2^31, 2^31+24, 2^32-1) x {0,1,40} framed queries behind the header then EOF; starter surplus: 5 statement-starting messages (Query / Execute starting text / binary COPY) x 9 surplus contents, callbacks compared with the surplus-free run; truncated stream: 7 canonical sessions cut after every byte (a message that was not received completely never reaches user code); earlier message: every Bind shape (0-4 format codes x 0-4 values) processed before every well-formed Bind, what the statement observes compared with the run without the earlier Bind; accessors: all bodies of length <= 5 over {00,01,'a',FF} x all accessor sequences of length <= 4 (thorough 5) over 8 accessors",
+		Rule:        "segmentation: streams = startup + every history of <= 3 letters over 12 letters (incl. surplus-carrying, oversized, COPY, truncated); read sizes 1/2/3, every single cut, every double cut (all pairs for streams <= 64 bytes, else within +-6 bytes of a message boundary), thorough: triple cuts inside every header; isolation: 16 surplus variants x prefixes of <= 1 letter; declared length: 6 positions (first, after a query, in a batch, in text / binary COPY, awaiting the password) x 15 message types x 15 declared lengths (limit+5 ... 2^31-1, 2^31, 2^31+24, 2^32-1) x {0,1,40} framed queries behind the header then EOF; starter surplus: 5 statement-starting messages (Query / Execute starting text / binary COPY) x 9 surplus contents, callbacks compared with the surplus-free run; inside COPY-in: oversized messages of 6 types x 4 sizes are consumed in exactly their declared length; Sync / Flush messages carrying 9 kinds of bodies leave the copy stream untouched; truncated stream: 7 canonical sessions cut after every byte (a message that was not received completely never reaches user code); earlier message: every Bind shape (0-4 format codes x 0-4 values) processed before every well-formed Bind, what the statement observes compared with the run without the earlier Bind; accessors: all bodies of length <= 5 over {00,01,'a',FF} x all accessor sequences of length <= 4 (thorough 5) over 8 accessors",
 		Assumptions: []string{"accessor results after the first error and negative sizes are outside the quantifier", "a surplus-carrying message may be rejected by closing the connection (nothing can leak then)"},
 		Enumerate:   c03Enumerate,
 		Bounds: func(tier string) map[string]any {
 			a, b := c03Depths(tier)
 			return map[string]any{"history_depth_single_cut": a, "history_depth_double_cut": b, "accessor_sequence_length": c03AccDepth(tier), "body_length": 5}
 		},
-		RequiredOutcomes: []string{"segmentation", "isolation", "accessors", "declared-length", "starter-surplus", "earlier-message", "truncated-stream"},
+		RequiredOutcomes: []string{"segmentation", "isolation", "accessors", "declared-length", "starter-surplus", "earlier-message", "truncated-stream", "inside-copy"},
 	})
 }
 
@@ -789,6 +862,32 @@ func c03Enumerate(tier string, emit explore.Emit) {
 					}
 					return r
 				}})
+		}
+	}
+	for _, t := range []byte{'d', 'Q', 'S', 'H', 'z', 'f'} {
+		for _, over := range []int{1, 12, c03Limit + 5, 3 * c03Limit} {
+			for _, bin := range []bool{false, true} {
+				t, over, bin := t, over, bin
+				emit(explore.Case{Family: "inside-copy", Size: 5,
+					Desc: func() any {
+						return map[string]any{"oversized_message_type": string(t), "bytes_over_the_limit": over, "binary_copy": bin}
+					},
+					Run: func() explore.Result { return c03RunOversizedInCopy(t, over, bin) }})
+			}
+		}
+	}
+	for _, t := range []byte{'S', 'H'} {
+		for _, sur := range c03SurplusContents() {
+			for _, bin := range []bool{false, true} {
+				for _, between := range []bool{false, true} {
+					t, sur, bin, between := t, sur, bin, between
+					emit(explore.Case{Family: "inside-copy", Size: 6,
+						Desc: func() any {
+							return map[string]any{"message": string(t), "body": sur.Name, "binary_copy": bin, "also_between_the_data_messages": between}
+						},
+						Run: func() explore.Result { return c03RunBodyInCopy(t, sur, bin, between) }})
+				}
+			}
 		}
 	}
 	for fa := 0; fa <= 4; fa++ {
